@@ -326,6 +326,46 @@ fn formula_grid(run: &Run) {
     let _ = BigInt::from(0);
 }
 
+/// Supplement, *sampling* (labelled so in the evidence): the inflator is served from a process-wide table that grows on demand;
+/// several threads ask for heights the process has not seen yet, at the same time, and every answer is compared with the
+/// recurrence.  Thread interleavings inside the table's lock hand-over cannot be enumerated here (parking_lot is not interceptable).
+fn concurrent_inflator_lookups(run: &Run, thorough: bool) {
+    let base: u64 = 1_600_000; // above every height the rest of this check touches
+    let per_thread: u64 = if thorough { 20_000 } else { 5_000 };
+    let threads = 4u64;
+    let real: u128 = 1 << 60;
+    // reference values first (single-threaded, own table)
+    let expected: Vec<Option<u128>> = (0..per_thread * threads).map(|i| ref_dosc_to_erg(base + i, real)).collect();
+    let wrong = std::sync::atomic::AtomicU64::new(0);
+    let first_wrong = parking_lot::Mutex::new(None);
+    std::thread::scope(|s| {
+        for t in 0..threads {
+            let (wrong, first_wrong, expected) = (&wrong, &first_wrong, &expected);
+            s.spawn(move || {
+                // thread t asks for base + t, base + t + threads, ...: neighbouring fresh heights are requested by different threads
+                for j in 0..per_thread {
+                    let i = j * threads + t;
+                    let got = guard(|| melstf::dosc_to_erg(BlockHeight(base + i), real));
+                    run.transition();
+                    run.validated();
+                    if let Ok(g) = got {
+                        if Some(g) != expected[i as usize] {
+                            wrong.fetch_add(1, std::sync::atomic::Ordering::Relaxed);
+                            first_wrong.lock().get_or_insert((base + i, g, expected[i as usize]));
+                        }
+                    }
+                }
+            });
+        }
+    });
+    let w = wrong.load(std::sync::atomic::Ordering::Relaxed);
+    run.set("concurrent_inflator_lookups", json!({"kind": "sampling of schedules (free-running threads), not exhaustive", "threads": threads, "fresh_heights": per_thread * threads, "wrong_answers": w}));
+    let fw: Option<(u64, u128, Option<u128>)> = first_wrong.into_inner();
+    if let Some((h, g, e)) = fw {
+        run.violation("C18", "inflator-formula/concurrent-lookups".into(), format!("{} of {} concurrent lookups of fresh heights were wrong, e.g. dosc_to_erg({}, 2^60) = {} reference {:?}", w, per_thread * threads, h, g, e), json!({"height": h, "real": real.to_string(), "threads": threads}));
+    }
+}
+
 pub fn run(run: &Run) {
     let thorough = run.thorough();
     let ages: Vec<u64> = if thorough { vec![1, 2, 3, 50, 99, 100, 101] } else { vec![1, 2, 3, 50] };
@@ -346,6 +386,7 @@ pub fn run(run: &Run) {
         run_world(run, NetID::Testnet, &[1, 2, 100], &[(2, false), (16, false), (3, true)], thorough);
     }
     formula_grid(run);
+    concurrent_inflator_lookups(run, thorough);
     run.set("ages", json!({"custom02": ages, "mainnet": m_ages}));
     run.set("difficulties", json!(diffs.iter().map(|(d, t)| format!("{}{}", d, if *t { "/tip910" } else { "/legacy" })).collect::<Vec<_>>()));
     run.sample(json!({"case": "coin0 age=2 d=16 legacy erg=max+1", "expected": "rejected: the ERG created exceeds the reward floor(reward(speed, previous dosc speed) x inflator(height))"}));
